@@ -1383,7 +1383,7 @@ class DataProviderServer(Server):
             DATA_LOGGER.info("Skipping request: %s", request_id)
             subscribe_err = SubscribeError("Subscribe request come too late")
             res = data_protocol.write_sub(subscribe_err)
-            return res
+            self._send_reply(request_id, res)
 
         sub_task = ItemTask(request_id, True, do_task, do_late_task)
         self._subscription_mgr.do_subscription(item_name, sub_task)
